@@ -5,6 +5,7 @@ import (
 	"strconv"
 	"strings"
 
+	"github.com/antlr4-go/antlr/v4"
 	gen "github.com/xinchentechnote/fin-protoc/internal/grammar"
 	"github.com/xinchentechnote/fin-protoc/internal/model"
 )
@@ -555,11 +556,16 @@ func (v *PacketDslVisitorImpl) VisitMatchPair(ctx *gen.MatchPairContext) interfa
 	} else if ctx.STRING() != nil {
 		key = ctx.STRING().GetText()
 	} else if ctx.List() != nil {
-		for _, k := range ctx.List().AllDIGITS() {
-			pairs = append(pairs, model.MatchPair{Key: k.GetText(), Value: val, Line: k.GetSymbol().GetLine(), Column: k.GetSymbol().GetTokenSource().GetCharPositionInLine()})
-		}
-		for _, k := range ctx.List().AllSTRING() {
-			pairs = append(pairs, model.MatchPair{Key: k.GetText(), Value: val, Line: k.GetSymbol().GetLine(), Column: k.GetSymbol().GetTokenSource().GetCharPositionInLine()})
+		// digits and strings in source order
+		for _, child := range ctx.List().GetChildren() {
+			k, ok := child.(antlr.TerminalNode)
+			if !ok {
+				continue
+			}
+			switch k.GetSymbol().GetTokenType() {
+			case gen.PacketDslParserDIGITS, gen.PacketDslParserSTRING:
+				pairs = append(pairs, model.MatchPair{Key: k.GetText(), Value: val, Line: k.GetSymbol().GetLine(), Column: k.GetSymbol().GetTokenSource().GetCharPositionInLine()})
+			}
 		}
 		return pairs
 	}
